@@ -412,7 +412,7 @@ impl<I> Core<I> {
         let p = self.log.poll_seq.get();
         if self.calls_poll == p {
             self.calls_in_poll += 1;
-            if self.calls_in_poll > 20_000 {
+            if self.calls_in_poll > 400_000 {
                 self.calls_in_poll = 0;
                 std::panic::panic_any(SpinGuard);
             }
